@@ -1,6 +1,7 @@
 import SwcVerif.Props.C16
 import SwcVerif.Props.C16Length
 import SwcVerif.Props.C16Pair
+import SwcVerif.Props.C16PairLoc
 #print axioms C16.cumdist_spec
 #print axioms C16.linspace_spec
 #print axioms C16.iso_step_le
@@ -21,3 +22,5 @@ import SwcVerif.Props.C16Pair
 #print axioms C16.pairArgmin_spec
 #print axioms C16.pair_step_inv
 #print axioms C16.pair_exact
+#print axioms C16.pair_step_loc
+#print axioms C16.pair_same_place
